@@ -11,6 +11,17 @@ CHECKS = {
    note="Trusted: TLC, the Json module, the harness projection (bit splitting, sha256 for binaries > 4 KiB). Bounded-exhaustive for small shapes, sampled beyond."),
 }
 
+CHECKS["C03"] = dict(
+   level="model_checking", ref="DESIGN.md section 5 (C03), section 3 (Reader.tla)",
+   technique="TLA+ model of both decoders and Skip (Reader.tla) model-checked by TLC over all short byte strings and grammar-aware mutants; the model's reachable inputs replayed on the real decoders; observations validated by C03Trace.tla (property predicates + exact model conformance)",
+   text="TLC checks Canonical, SkipAgrees, ReadersAgree and the cost bound on every byte string over a 12-17 symbol alphabet up to length 3-4 (7 for a reduced alphabet) and on every 1-byte substitution/truncation of the encodings of ~900 values, for 13 requested types and both reader kinds. The same inputs (TLC state dump) plus seeded mutants of random nested values are run through the real random-access reader (with forcing), the stream reader under four read segmentations, and Skip on seekable and pure-stream sources in crash-isolated child processes; TLC judges each observation.",
+   note="Trusted: TLC, Json module, harness projection. Hang = child timeout. Beyond the bounded families the exploration is sampled.")
+CHECKS["C12"] = dict(
+   level="model_checking", ref="DESIGN.md section 5 (C12), section 3 (Envelope.tla)",
+   technique="TLA+ model of the three framings and both request APIs with the peek segmentation as an environment action (MCEnvelope.tla, with a negative-control config); cases replayed on the real encoders/DecodeRequest/ReadRequest/responders; observations validated by C12Trace.tla",
+   text="TLC checks RoundTrip, RejectWrongType, ApisAgree, BothOkEqual and peek completeness for all envelopes over names (incl. ':' and non-UTF8, empty), types incl. unknown, seqid boundaries, 3 framings, 2 expected types, damaged requests and all peek segmentations; a config modelling a single-Read peek must violate ApisAgree (negative control). The envelopes are encoded by the real encoders and sent through DecodeRequest and ReadRequest under five reader kinds (seekable, whole, 1-byte, zero-length reads, random splits) with real responders; TLC judges exact bytes, echo and agreement.",
+   note="Trusted: TLC, Json module, harness projection. Legacy envelopes with empty names are outside the property.")
+
 NOT_YET = {}
 
 def main():
